@@ -283,22 +283,12 @@ Definition run_import (t : table) (f : option file) : result Z * table :=
   | Some (hdr :: recs) => import_loop (List.length hdr) bsz (S (List.length recs)) recs ist0 t
   end.
 
-(* database.Init as a function of (prepared_db flag, table, file) -> (started?, table) *)
+(* database.Init as a function of (prepared_db flag, table, file) -> (started?, table).
+   importHeaders: a table that already holds headers is left alone (count > 0: neither import nor
+   validation); otherwise the file is imported and validated, and a refused import (read error, bad
+   record, failed validation) removes what it inserted: removeRefusedImport = DELETE FROM headers,
+   the table was empty before (service commit 6243e75). *)
 Definition startup (prepared : bool) (t : table) (f : option file) : bool * table :=
-  if prepared then
-    match t with
-    | _ :: _ => (true, t)                          (* count > 0: import AND validation are skipped *)
-    | [] =>
-        match run_import t f with
-        | (Err, t') => (false, t')
-        | (Ok count, t') => (validate count t' ck_height ck_hash, t')
-        end
-    end
-  else (true, db_insert t (genesis, st_longest)).
-
-(* the proposed repair (build/proposed-fixes/C17-1.diff): a refused import removes what it inserted
-   (the table was empty before it) *)
-Definition startup_fixed (prepared : bool) (t : table) (f : option file) : bool * table :=
   if prepared then
     match t with
     | _ :: _ => (true, t)
@@ -306,6 +296,21 @@ Definition startup_fixed (prepared : bool) (t : table) (f : option file) : bool 
         match run_import t f with
         | (Err, _) => (false, [])
         | (Ok count, t') => if validate count t' ck_height ck_hash then (true, t') else (false, [])
+        end
+    end
+  else (true, db_insert t (genesis, st_longest)).
+
+(* HISTORY: database.Init before commit 6243e75 - a refused import left its rows in the table
+   (known finding C17-second-start-accepts-leftovers, now fixed).  Kept for the regression
+   witnesses of ExportImportHistory.v and for VERIF_C17_MODEL=old. *)
+Definition startup_old (prepared : bool) (t : table) (f : option file) : bool * table :=
+  if prepared then
+    match t with
+    | _ :: _ => (true, t)                          (* count > 0: import AND validation are skipped *)
+    | [] =>
+        match run_import t f with
+        | (Err, t') => (false, t')
+        | (Ok count, t') => (validate count t' ck_height ck_hash, t')
         end
     end
   else (true, db_insert t (genesis, st_longest)).
